@@ -31,9 +31,9 @@ pub struct Case {
 }
 
 fn strategy(max_len: usize, max_l: usize) -> impl Strategy<Value = Case> {
-    (prop_oneof![Just(1u32), Just(2u32), 1u32..20, prop::sample::select(vec![32u32, 64, 128])], 1usize..=max_l, any::<bool>(), 1u8..10, prop_oneof![3 => Just(0u8), 1 => 1u8..4], any::<u64>()).prop_flat_map(move |(m, l, wy, alpha, family, base)| {
+    (prop_oneof![Just(1u32), Just(2u32), 1u32..20, prop::sample::select(vec![32u32, 64, 128])], prop_oneof![6 => 1usize..=max_l, 1 => (max_l + 1)..=15usize], any::<bool>(), 1u8..10, prop_oneof![3 => Just(0u8), 1 => 1u8..4], any::<u64>()).prop_flat_map(move |(m, l, wy, alpha, family, base)| {
         let seq = move |lo: usize, hi: usize| prop::collection::vec(0u8..alpha, lo..=hi);
-        (seq(l, max_len.max(l)), prop::collection::vec(any::<u16>(), 1..=max_len), prop::collection::vec(seq(l, l + 8), 0..3)).prop_map(move |(s, perm, history)| Case { m, l, wy, family, base, seq: s, perm, history })
+        (seq(l, max_len.max(l + 4)), prop::collection::vec(any::<u16>(), 1..=max_len), prop::collection::vec(seq(l, l + 8), 0..3)).prop_map(move |(s, perm, history)| Case { m, l, wy, family, base, seq: s, perm, history })
     })
 }
 
@@ -250,7 +250,7 @@ pub fn eval_hunt(c: &HuntCase) -> Eval {
 }
 
 pub fn run(ctx: &Ctx) {
-    ctx.set_rule("proptest generates (m, l in 1..4 (thorough ..8), hasher FNV/WyHash, a sequence of length l..12 (thorough ..30) over an alphabet of 1..9 symbols so that repeats are common, a permutation, 0..2 unrelated earlier hash_set calls). \
+    ctx.set_rule("proptest generates (m, l in 1..4 (thorough ..8) and in one case out of seven up to 15 (the largest accepted value), hasher FNV/WyHash, a sequence of length l..12 (thorough ..30) over an alphabet of 1..9 symbols so that repeats are common, a permutation, 0..2 unrelated earlier hash_set calls). \
         Oracles: (i) per position the l selected indices (guarded hook) are in range and strictly ascending and the position's value equals the dictionary value of exactly those l elements, the dictionary being built through the public API (hash_set of the l-element sequence); \
         for short inputs every position's value must be the combined hash of SOME l-subsequence (public API only); (ii) the set of (element, occurrence-number) pairs selected per position is the same for the sequence and its permutation; (iii) for l = 1 the signature is identical under the permutation; \
         (iv) a second call with the same data gives the same signature. Non-trivial = the permutation changes the sequence and it is longer than l.");
